@@ -1025,7 +1025,8 @@ def rotate_compute_store(fnode, base_names, stats):
       s1, s2 = b[k], b[k + 1]
       if (isinstance(s1, ast.Assign) and len(s1.targets) == 1 and isinstance(s1.targets[0], ast.Name) and s1.targets[0].id not in base_names
           and isinstance(s2, ast.Assign) and len(s2.targets) == 1 and isinstance(s2.value, ast.Name) and s2.value.id == s1.targets[0].id
-          and isinstance(s2.targets[0], ast.Attribute) and _is_pure_chain(s2.targets[0])):
+          and ((isinstance(s2.targets[0], ast.Attribute) and _is_pure_chain(s2.targets[0]))
+               or (isinstance(s2.targets[0], ast.Subscript) and isinstance(s2.targets[0].value, ast.Name) and isinstance(s2.targets[0].slice, ast.Constant)))):
         x, a = s1.targets[0], s2.targets[0]
         load = copy.deepcopy(a)
         for n in ast.walk(load):
@@ -1741,6 +1742,120 @@ def restore_pop_default(fnode, bsrc, stats):
   ast.fix_missing_locations(fnode)
 
 
+def split_isinstance_handlers(fnode, bsrc, stats):
+  """`except BaseException as ex: A; if isinstance(ex, E): B` (one handler that tells the kinds apart by a test) where the reference function has a
+  handler of its own for E: two handlers again, `except E: A; B` first and the catch-all with the test decided the other way.  An unused `as ex`
+  is dropped and `except BaseException:` is the bare `except:` when that is what the reference writes."""
+  base_types = set()
+  base_bare = False
+  for n in ast.walk(bsrc):
+    if isinstance(n, ast.ExceptHandler):
+      if n.type is None:
+        base_bare = True
+      else:
+        base_types.add(ast.unparse(n.type))
+  if not base_types and not base_bare:
+    return
+
+  def decide(stmts, name, E, truth):
+    out = []
+    for st in stmts:
+      if (isinstance(st, ast.If) and isinstance(st.test, ast.Call) and ast.unparse(st.test.func) == 'isinstance' and len(st.test.args) == 2
+          and ast.unparse(st.test.args[0]) == name and ast.unparse(st.test.args[1]) == E):
+        out.extend(copy.deepcopy(st.body if truth else st.orelse))
+      elif (isinstance(st, ast.If) and isinstance(st.test, ast.UnaryOp) and isinstance(st.test.op, ast.Not) and isinstance(st.test.operand, ast.Call)
+            and ast.unparse(st.test.operand.func) == 'isinstance' and len(st.test.operand.args) == 2 and ast.unparse(st.test.operand.args[0]) == name
+            and ast.unparse(st.test.operand.args[1]) == E):
+        out.extend(copy.deepcopy(st.orelse if truth else st.body))
+      else:
+        out.append(copy.deepcopy(st))
+    return out or [ast.Pass()]
+  for t in [n for n in own_nodes(fnode) if isinstance(n, ast.Try)]:
+    for hi, h in enumerate(list(t.handlers)):
+      if h.name is None or not (h.type is None or ast.unparse(h.type) == 'BaseException'):
+        continue
+      tests = [st for st in h.body if isinstance(st, ast.If) and any(isinstance(c, ast.Call) and ast.unparse(c.func) == 'isinstance' and len(c.args) == 2
+                                                                     and ast.unparse(c.args[0]) == h.name for c in [st.test, getattr(st.test, 'operand', None)] if c is not None)]
+      if len(tests) != 1:
+        continue
+      c = tests[0].test if isinstance(tests[0].test, ast.Call) else tests[0].test.operand
+      E = ast.unparse(c.args[1])
+      if E not in base_types or any(ast.unparse(x.type) == E for x in t.handlers if x.type is not None):
+        continue
+      if any(isinstance(x, ast.Name) and x.id == h.name and isinstance(x.ctx, ast.Store) for st in h.body for x in ast.walk(st)):
+        continue
+      h1 = ast.ExceptHandler(type=c.args[1], name=h.name, body=decide(h.body, h.name, E, True))
+      h2 = ast.ExceptHandler(type=h.type, name=h.name, body=decide(h.body, h.name, E, False))
+      for hh in (h1, h2):
+        if not any(isinstance(x, ast.Name) and x.id == h.name for st in hh.body for x in ast.walk(st)):
+          hh.name = None
+        ast.copy_location(hh, h)
+      if base_bare and h2.type is not None and h2.name is None:
+        h2.type = None
+      k = t.handlers.index(h)
+      t.handlers[k:k + 1] = [h1, h2]
+      stats['handlers_split'] = stats.get('handlers_split', 0) + 1
+  ast.fix_missing_locations(fnode)
+
+
+def restore_guard_arms(fnode, bsrc, stats):
+  """`if T: A.. else: B..; return` where the reference function tests the complement of T as a guard without else (`if not T: ..; return` then A):
+  the arms are swapped back under the reference's test and the else is dissolved; likewise `if T: A..; return  else: B..` loses its else
+  when the reference has that test without one.  (An arm that ends in return / raise / continue / break makes the else redundant.)"""
+  base_tests = set()
+  for n in ast.walk(bsrc):
+    if isinstance(n, ast.If) and not n.orelse:
+      base_tests.add(ast.unparse(n.test))
+  if not base_tests:
+    return
+
+  def terminates(stmts):
+    return bool(stmts) and isinstance(stmts[-1], (ast.Return, ast.Raise, ast.Continue, ast.Break))
+
+  def negations(t):
+    out = []
+    if isinstance(t, ast.UnaryOp) and isinstance(t.op, ast.Not):
+      out.append(t.operand)
+    else:
+      out.append(ast.UnaryOp(op=ast.Not(), operand=t))
+      if isinstance(t, ast.Compare) and len(t.ops) == 1:
+        comp = {ast.Is: ast.IsNot, ast.IsNot: ast.Is, ast.In: ast.NotIn, ast.NotIn: ast.In}.get(type(t.ops[0]))
+        if comp is not None:
+          out.append(ast.Compare(left=t.left, ops=[comp()], comparators=t.comparators))
+    return out
+  changed = True
+  rounds = 0
+  while changed and rounds < 6:
+    changed = False
+    rounds += 1
+    for b in _blocks(fnode):
+      for k, st in enumerate(b):
+        if not (isinstance(st, ast.If) and st.orelse):
+          continue
+        if len(st.orelse) == 1 and isinstance(st.orelse[0], ast.If) and not terminates(st.body):
+          continue      # an elif chain
+        if terminates(st.orelse) and ast.unparse(st.test) not in base_tests:
+          neg = [x for x in negations(st.test) if ast.unparse(x) in base_tests]
+          if neg:
+            body, orelse = st.body, st.orelse
+            st.test = ast.copy_location(neg[0], st.test)
+            st.body, st.orelse = orelse, []
+            b[k + 1:k + 1] = body
+            stats['guards'] = stats.get('guards', 0) + 1
+            changed = True
+            break
+        if terminates(st.body) and ast.unparse(st.test) in base_tests:
+          orelse = st.orelse
+          st.orelse = []
+          b[k + 1:k + 1] = orelse
+          stats['guards'] = stats.get('guards', 0) + 1
+          changed = True
+          break
+      if changed:
+        break
+  ast.fix_missing_locations(fnode)
+
+
 def raise_append_loops(fnode, bsrc, stats):
   """`acc = []` directly followed by `for T in IT: [if C:] acc.append(E)` (nothing else in the loop), in a function whose reference version has
   comprehensions and no such accumulation loop: the comprehension `acc = [E for T in IT if C]` again (the same calls in the same order; the list
@@ -2150,6 +2265,8 @@ def rename_function(fnode, rel, qualname, base_funcs, stats):
       if bsrc is not None:
         keywords_to_positional(fnode, bsrc, stats)
         raise_append_loops(fnode, bsrc, stats)
+        restore_guard_arms(fnode, bsrc, stats)
+        split_isinstance_handlers(fnode, bsrc, stats)
         restore_pop_default(fnode, bsrc, stats)
         unroll_constant_comprehensions(fnode, bsrc, stats)
         restore_tuple_unpacking(fnode, bsrc, base_names, stats)
